@@ -687,7 +687,11 @@ func (la *lockAnalysis) contextM(ambient func(fn *ssa.Function) lset, ambientMus
 					}
 				}
 			}
-			// closures passed as arguments run inside the callee: approximate with the call site's state
+			// closures passed as arguments run inside the callee: approximate with the call site's state —
+			// except for time.AfterFunc, which runs its argument later on another goroutine (like `go`)
+			if calleeOf(ci).Name() == "time.AfterFunc" {
+				return
+			}
 			for _, a := range ci.Common().Args {
 				if cl := closureOf(a); cl != nil {
 					sites[cl] = append(sites[cl], site{f, in})
